@@ -15,8 +15,8 @@
     `insert_before` merge a text node into an adjacent text node, so `treeOf d` (which does not
     merge) would differ.  With consolidation off nothing is required of text.
   Empty text items are NOT excluded: every API route creates and keeps an empty text node.  They
-  only matter for the parse route (an empty text node serialises to nothing), which is checked on
-  the implementation by the `ffixed` suite, not proved here (`FContent.noEmptyText`).
+  only matter for the parse route (an empty text node serialises to nothing): its theorems (last
+  section) assume the C01 domain, which excludes them (`FContent.noEmptyText`, `C20_representable_wf`).
 
   Hypothesis on the store: ANY forest whose handles are pairwise distinct and below `next`
   (`Good f`; implied by the C04 invariant `Forest.Inv`, `C20_good_of_inv`) — not only the empty
